@@ -1466,10 +1466,17 @@ class SimulationRunner:
         # If loading partial results failed then we will run the FIRST
         # repetition here and the "while" statement after this
         # will run as usual.
+        # Number of times a SkipThisOne exception was raised before the first
+        # repetition could be completed
+        num_skipped_first_rep = 0
         if current_sim_results is None:
-            current_sim_results = \
-                self.__run_simulation_and_track_elapsed_time(
-                    current_params)
+            while current_sim_results is None:
+                try:
+                    current_sim_results = \
+                        self.__run_simulation_and_track_elapsed_time(
+                            current_params)
+                except SkipThisOne:
+                    num_skipped_first_rep += 1
             current_rep = 1
         else:
             # The current_rep will be set to the value or run
@@ -1482,7 +1489,7 @@ class SimulationRunner:
 
         # Add the extra 'num_skipped_reps' Result.
         current_sim_results.add_new_result("num_skipped_reps", Result.SUMTYPE,
-                                           0)
+                                           num_skipped_first_rep)
 
         # Run more iterations until one of the stop criteria is
         # reached. Note that if partial results were loaded successfully
